@@ -71,6 +71,14 @@ def run_shards(ctx, binary, mode, cases, shards, extra=None, timeout=1500):
     return traces, results
 
 
+def check_abandoned(ctx, results, label):
+    ab = [r for r in results if r.get("abandoned")]
+    if ab:
+        ctx.notes.append("%s: %d of %d runs abandoned before the signal (set-up failure, not judged)" % (label, len(ab), len(results)))
+    if len(ab) * 10 > len(results):
+        raise vlib.Inconclusive("%s: %d of %d signal points could not be set up" % (label, len(ab), len(results)))
+
+
 def validate(ctx, traces, module, sigfn, label):
     allp = os.path.join(ctx.tmp, "c11_%s_all.ndjson" % label)
     with open(allp, "w") as fo:
@@ -166,9 +174,15 @@ def run(ctx):
     t0 = time.time()
     traces, results = run_shards(ctx, binary, "inproc", cases, shards)
     vlib.log("[c11] %d in-process trials in %.1fs" % (len(results), time.time() - t0))
-    if len(results) < len(cases):
-        ctx.notes.append("in-process driver stopped early: %d of %d trials" % (len(results), len(cases)))
-    validate(ctx, traces, "ShutdownTrace", sigterm_sig, "inproc")
+    check_abandoned(ctx, results, "in-process")
+    skipped = [r for r in results if r.get("skipped")]
+    if skipped:
+        ctx.notes.append("in-process driver did not run %d of %d trials after recording failures (%s)" % (
+            len(skipped), len(cases), sorted(set(r["skipped"] for r in skipped))))
+    evs = validate(ctx, traces, "ShutdownTrace", sigterm_sig, "inproc")
+    for need in ("onshutdown", "lstate", "drain", "new", "clean"):
+        if not any(e["ev"] == need for e in evs):
+            raise vlib.Inconclusive("no %s event recorded: the verif hooks of listener / drain loop / proxy streams are missing in %s" % (need, vlib.REPO))
     ctx.cov["distinct_nontrivial"] = sum(1 for c in cases if any(v["ph"] != "idle" for v in c["conns"].values()))
     ctx.cov["rule"] = ("a case = one signal point of Shutdown.tla (2 connections x up to 2 requests x phase of the current request "
                        "in {idle,hdr,body,wait,resp}, connections interchangeable) x environment mode (prompt / stalled until exit) x "
@@ -269,6 +283,7 @@ def proc_tier(ctx, binary, points, rnd):
     traces, results = run_shards(ctx, binary, "proc", cases, shards, extra=["-bin", mosn], timeout=1100)
     vlib.log("[c11] %d process-level trials (%d SIGTERM, %d SIGHUP) in %.1fs" % (len(results), len(term), len(hup), time.time() - t0))
     shutil.rmtree(os.path.dirname(mosn), ignore_errors=True)
+    check_abandoned(ctx, results, "process-level")
     files = split_runs(traces, ctx)
     validate(ctx, [files["term"]], "ShutdownTrace", sigterm_sig, "proc-sigterm")
     evs = validate(ctx, [files["hup"]], "UpgradeTrace", hup_sig, "proc-sighup")
